@@ -247,8 +247,9 @@ func (gs GenesisState) ValidateOperatorAssets(tokensTotalStaking map[string]math
 			// check that the asset is registered
 			// no need to check for the validity of the assetID, since
 			// an invalid assetID cannot be in the tokens map.
+			// the native token can be delegated without being registered as a client chain asset
 			totalStaking, ok := tokensTotalStaking[asset.AssetID]
-			if !ok {
+			if !ok && asset.AssetID != ExocoreAssetID {
 				return errorsmod.Wrapf(
 					ErrInvalidGenesisData,
 					"unknown assetID for operator assets %s: %s",
